@@ -24,6 +24,13 @@ func (te *tableEngine) tableGameOpen() error {
 		return nil
 	}
 
+	// 本手已開局但遊戲狀態尚未回寫 (game state is published by the updater goroutine a moment after the
+	// hand has been opened): a second trigger must not open another hand on top of it
+	switch te.table.State.Status {
+	case TableStateStatus_TableGameOpened, TableStateStatus_TableGamePlaying, TableStateStatus_TableGameSettled:
+		return nil
+	}
+
 	// 開局
 	newTable, err := te.openGame(te.table)
 
